@@ -210,11 +210,28 @@ fn apply(
             } else {
                 (root_b, fb, root_a, fa)
             };
-            let loser_name = {
+            let conflict_name = |serial: u32| {
                 let mut n = rel.as_os_str().to_owned();
                 n.push(format!(".conflict-{host}-{}", short_hex(&lose_fp.blake3)));
+                if serial > 0 {
+                    n.push(format!("-{serial}"));
+                }
                 PathBuf::from(n)
             };
+            // Never clobber: if that name already holds other content on a side
+            // (an earlier conflict-copy the user has since edited), take the
+            // next free serial instead of overwriting their version.
+            let taken = |n: &PathBuf| {
+                [a, b]
+                    .iter()
+                    .any(|m| m.get(n).is_some_and(|f| f.blake3 != lose_fp.blake3))
+            };
+            let mut serial = 0;
+            let mut loser_name = conflict_name(serial);
+            while taken(&loser_name) {
+                serial += 1;
+                loser_name = conflict_name(serial);
+            }
             let win_full = win_root.join(rel); // winner content
             let lose_full = lose_root.join(rel); // loser content (about to be overwritten)
                                                  // 1. Preserve the loser as a conflict-copy on BOTH sides FIRST.
